@@ -13,6 +13,9 @@ import json as _real_json
 _token_n = [0]
 
 
+_token_by_text = {}          # text -> token (a writer may hand the text over in pieces: _WFile re-assembles it)
+
+
 class JsonToken(str):
     """text stand-in for json.dumps(obj); compare through .obj, never through the text"""
     def __new__(cls, obj, kw=None):
@@ -20,6 +23,7 @@ class JsonToken(str):
         s = str.__new__(cls, "<json-token-%d>" % _token_n[0])
         s.obj = obj
         s.kw = kw or {}
+        _token_by_text[str.__str__(s)] = s
         return s
 
 
@@ -185,6 +189,7 @@ class _WFile:
         self.w, self.path, self.closed = world, path, False
         self.truncated = truncated
         self.had_content = bool(world._lookup(path)) or bool(world.written.get(path))
+        self._buf = ""
         self.w.written[path] = []
 
     def truncate(self, size=None):
@@ -193,10 +198,24 @@ class _WFile:
 
     def writelines(self, s):
         self.w._step("write")
+        if not hasattr(s, "obj") and isinstance(s, str) and (self._buf or "<json-token-".startswith(s[:12]) or s.startswith("<json-token-")):
+            # a piece of a token's text (block-wise writer): re-assembled, recorded once complete
+            self._buf += s
+            tok = _token_by_text.get(self._buf)
+            if tok is None:
+                return
+            s, self._buf = tok, ""
         self.w.events.append(("write", self.path, s))
         self.w.written[self.path].append(s)
 
     write = writelines
+
+    def _flush_pieces(self):
+        if self._buf:
+            s, self._buf = self._buf, ""
+            s = _token_by_text.get(s.strip(), s)        # white space around a JSON document is insignificant
+            self.w.events.append(("write", self.path, s))
+            self.w.written[self.path].append(s)
 
     def flush(self):
         self.w._step("flush")
@@ -204,6 +223,7 @@ class _WFile:
     def close(self):
         if not self.closed:
             self.closed = True
+            self._flush_pieces()
             self.w._step("close")
             if not self.truncated and self.had_content:
                 self.w.events.append(("stale_tail", self.path))
